@@ -12,7 +12,8 @@ def spliceUnknown (es : List (Nat × Bytes)) : List (Nat × Bytes) :=
   [(0x50, [1, 2, 3])] ++ es.take 2 ++ [(0x50, [4, 5, 6]), (0x51, [9])] ++ es.drop 2 ++ [(0x50, [7, 8, 9]), (0x50, [0, 0, 0])]
 
 def exIrr (v : Ver) (sl el : Nat) (gk : Option GeckoBlocks) (shape : List PortOccupancy) (frames : List FrameOcc) (junk : Bytes) : Irr :=
-  Irr.ofUnknown v sl el gk [(0x50, 3), (0x51, 1)] (spliceUnknown (canonEventsAny v shape frames)) junk
+  { Irr.ofUnknown v sl el gk [(0x50, 3), (0x51, 1)] (spliceUnknown (canonEventsAny v shape frames)) junk with
+    pre := if gk.isSome then [[(0x50, [1, 2, 3])], [(0x51, [9]), (0x50, [4, 5, 6])]] else [] }
 
 /-- decidable form of `Longer` -/
 def longerb : List (Nat × Bytes) → List (Nat × Bytes) → Bool
@@ -47,6 +48,7 @@ def irrCheck (r : Replay) (s : Start) (gk : Option GeckoBlocks) (i : Irr) : Bool
   (gk.isNone || decide ((EV_SPLITTER, 516) ∈ i.table)) &&
   longerb (i.mixed.filter (fun e => isKnown e.1)) (canonEventsAny s.version (portOccupancy s) r.frames) &&
   i.mixed.all (fun e => decide (e.1 < 256) && decide ((e.1, e.2.length) ∈ i.table)) &&
+  i.pre.all (fun u => u.all (fun e => !isKnown e.1 && decide (e.1 < 256) && decide ((e.1, e.2.length) ∈ i.table))) &&
   (i.junk.isEmpty || (r.fend.isSome && !r.doubled && !(decide (i.junk.length = 1 + endSize s.version) && decide (i.junk.head? = some 0x39)))) &&
   decide ((r.fileIrr s gk i).raw.length < 256 ^ 4)
 
@@ -54,12 +56,14 @@ theorem irr_ok {T : TextOracle} {r : Replay} {s : Start} {gk : Option GeckoBlock
     (hc : irrCheck r s gk i = true) : i.OK T r s gk := by
   simp only [irrCheck, Bool.and_eq_true, decide_eq_true_eq, List.all_eq_true, Bool.or_eq_true, Bool.not_eq_true',
     List.isEmpty_iff, Option.isSome_iff_exists, Bool.and_eq_false_iff, decide_eq_false_iff_not, Option.isNone_iff_eq_none] at hc
-  obtain ⟨⟨⟨⟨⟨⟨⟨⟨⟨h1, h2⟩, h3⟩, hs⟩, he⟩, hsp⟩, h4⟩, h5⟩, h6⟩, h7⟩ := hc
-  refine ⟨hb, fun e he => ?_, h2, h3, hs, he, fun g hg => ?_, longerb_sound _ _ h4, h5, fun hj => ?_, h7⟩
+  obtain ⟨⟨⟨⟨⟨⟨⟨⟨⟨⟨h1, h2⟩, h3⟩, hs⟩, he⟩, hsp⟩, h4⟩, h5⟩, hpre⟩, h6⟩, h7⟩ := hc
+  refine ⟨hb, fun e he => ?_, h2, h3, hs, he, fun g hg => ?_, longerb_sound _ _ h4, h5, fun u hu e he => ?_, fun hj => ?_, h7⟩
   · have := h1 e he; exact ⟨this.1.1, this.1.2, this.2⟩
   · rcases hsp with h | h
     · rw [hg] at h; cases h
     · exact h
+  · have := hpre u hu e he
+    exact ⟨this.1.1, this.1.2, this.2⟩
   · rcases h6 with h | ⟨⟨h, hd⟩, hn⟩
     · exact absurd h hj
     · refine ⟨h, hd, ?_⟩
@@ -89,7 +93,7 @@ theorem exampleIrr_C :
       (exReplay (exBlock 1 0 352) (exFrames [-123, -122, -121] 14 12 1 0 0 false) [2]) (startOf (exBlock 1 0 352)) none :=
   irr_ok example_C _ (by decide +kernel)
 
-/-- 3.16.0 with a Gecko block, unknown events after it -/
+/-- 3.16.0 with a Gecko block: unknown events before each of its two splitter events and after it -/
 theorem exampleIrr_G :
     (exIrr (startOf (exBlock 3 16 760)).version 760 6 (some exGecko) (portOccupancy (startOf (exBlock 3 16 760)))
       (exFrames [-123, -122, -122] 17 32 2 16 1 true) []).OK T0
